@@ -235,7 +235,8 @@ def run_orch_cp(run, binpath, rng):
              "events": [list(e) for e in c["events"]], "events2": [list(e) for e in c["events2"]],
              "expect": sum(len(p) for p in r1["out"]), "expect2": sum(len(p) for p in r2["out"]), "timeout_ms": 20000, "grace_ms": 100}
             for c, r1, r2 in zip(ocs, refs1, refs2)]
-    answers = harness.run_jsonl(binpath, reqs, timeout=2400)
+    with X.Phase(run, "threaded orchestrator runs"):
+        answers = harness.run_jsonl(binpath, reqs, timeout=2400)
     for c, a, r1, r2 in zip(ocs, answers, refs1, refs2):
         run.count("kind:threaded-checkpoint-restore")
         run.case(("orch_cp", json.dumps(c, sort_keys=True)[:200]))
@@ -262,12 +263,14 @@ def check(run):
     rng = run.rng
     n = 110 if run.tier == "quick" else 4000
     cases = [WITNESS] + [gen_case(rng, quiet=(i % 3 == 0)) for i in range(n)]
-    answers = X.run_direct(binpath, cases)
-    try:
-        models = X.run_model("C27", cases)
-    except RuntimeError as ex:
-        run.tie_broken("model evaluation (coqc)", str(ex))
-        models = None
+    with X.Phase(run, "implementation runs (poll by poll)"):
+        answers = X.run_direct(binpath, cases)
+    with X.Phase(run, "model runs (vm_compute)"):
+        try:
+            models = X.run_model("C27", cases)
+        except RuntimeError as ex:
+            run.tie_broken("model evaluation (coqc)", str(ex))
+            models = None
 
     def accepted_pre(case, ans):
         kr = [k for k, m in enumerate(case["sched"]) if m[0] == "restore"]
